@@ -539,6 +539,14 @@ def check_property(pid, tier='quick', seed=0, witness_hook=None):
         for u in undecided:
             print('UNDECIDED property=%s %s' % (pid, u))
         exit_code = 2
+    mutant_results = []
+    if tier == 'thorough':
+        mutant_results = run_mutants(units, pid)
+        for mr in mutant_results:
+            if mr['result'] in ('missed', 'error'):
+                print('SELF-TEST property=%s mutant %s/%s %s: %s' % (pid, mr['unit'], mr['name'], mr['result'], mr.get('detail', mr.get('failures'))))
+                if exit_code == 0:
+                    exit_code = 2
     if tier == 'thorough' and exit_code == 0:
         unstable = [e for e in extra_runs if e['status'] != 'ok' and not known_hits]
         if unstable:
@@ -563,6 +571,9 @@ def check_property(pid, tier='quick', seed=0, witness_hook=None):
             'violations': vio_out,
             'undecided': undecided,
             'extra_runs': extra_runs,
+            'mutants_expected': len([m for m in mutant_results if m['result'] != 'not-applicable']),
+            'mutants_detected': len([m for m in mutant_results if m['result'] == 'detected']),
+            'mutants': mutant_results,
             'explanation': 'obligations = AIR assert statements generated by Verus for the contracted functions tagged with this property plus the lemmas/spec functions of their units, counted on this run from the AIR log; discharged = those in functions Verus reported verified.',
         },
         'assumptions': trusted + [
@@ -618,3 +629,82 @@ def dev_unit(unit, vacuity=True):
     tot = sum(r.obligations.values())
     print('  obligations(AIR asserts)=%d functions=%d' % (tot, len(r.functions)))
     return 0 if r.status == 'ok' else 1
+
+
+# ------------------------------------------------------------------------------------------------
+# mutation self-test (thorough tier): units/<unit>.mutants.json =
+#   [{"name": "...", "file": "src/x.rs", "from": "<literal>", "to": "<literal>", "expect": "<label regex>",
+#     "occurrence": 1}]
+# Each mutant is applied to a scratch copy of /repo/src (mktemp outside /repo and /verif, removed
+# afterwards); the unit must then FAIL an obligation whose label/obligation id matches `expect`.
+
+
+def unit_json(unit, tag=''):
+    r = verify_unit(unit, vacuity=False, tag=tag)
+    return {'unit': unit, 'status': r.status, 'message': r.message,
+            'failures': [{'class': f['class'], 'obligation': f['obligation'], 'labels': f['labels'], 'props': f['props'],
+                          'message': f['message'], 'site': f['site']} for f in r.failures]}
+
+
+def load_mutants(unit):
+    p = os.path.join(VERIF, 'units', unit + '.mutants.json')
+    if not os.path.exists(p):
+        return []
+    return json.load(open(p))
+
+
+def run_mutant(unit, m):
+    import tempfile
+    d = tempfile.mkdtemp(prefix='vmut_')
+    try:
+        shutil.copytree(os.path.join(extract.REPO, 'src'), os.path.join(d, 'src'))
+        fp = os.path.join(d, m['file'])
+        txt = open(fp, encoding='utf-8').read()
+        cnt = txt.count(m['from'])
+        occ = m.get('occurrence', 1)
+        if cnt < occ:
+            return {'name': m['name'], 'result': 'not-applicable', 'detail': 'pattern occurs %d times' % cnt}
+        idx = -1
+        for _ in range(occ):
+            idx = txt.index(m['from'], idx + 1)
+        txt = txt[:idx] + m['to'] + txt[idx + len(m['from']):]
+        open(fp, 'w', encoding='utf-8').write(txt)
+        env = dict(os.environ)
+        env['VERIF_REPO'] = d
+        tag = '_m_' + re.sub(r'\W+', '_', m['name'])[:40]
+        p = subprocess.run([sys.executable, os.path.join(VERIF, 'check'), '--unit-json', unit, '--tag', tag],
+                           stdout=subprocess.PIPE, stderr=subprocess.PIPE, env=env, timeout=1200)
+        try:
+            res = json.loads(p.stdout.decode('utf-8', 'replace').strip().split('\n')[-1])
+        except ValueError:
+            return {'name': m['name'], 'result': 'error', 'detail': p.stderr.decode('utf-8', 'replace')[-300:]}
+        hits = [f for f in res['failures'] if f['class'] in ('labelled', 'builtin') and
+                (re.search(m['expect'], f['obligation']) or any(re.search(m['expect'], l) for l in f['labels']))]
+        for g in glob.glob(os.path.join(GEN, 'u_%s%s*' % (unit, tag))):
+            if os.path.isdir(g):
+                shutil.rmtree(g, ignore_errors=True)
+            else:
+                os.unlink(g)
+        if hits:
+            return {'name': m['name'], 'result': 'detected', 'obligation': hits[0]['obligation']}
+        return {'name': m['name'], 'result': 'missed', 'status': res['status'], 'detail': res['message'][:200],
+                'failures': [f['obligation'] for f in res['failures']][:5]}
+    finally:
+        shutil.rmtree(d, ignore_errors=True)
+
+
+def run_mutants(units, pid=None):
+    jobs = []
+    for u in units:
+        for m in load_mutants(u):
+            if pid and pid not in m.get('expect', '') and pid not in m.get('props', []):
+                continue
+            jobs.append((u, m))
+    out = []
+    with concurrent.futures.ThreadPoolExecutor(max_workers=6) as ex:
+        futs = [(u, m, ex.submit(run_mutant, u, m)) for u, m in jobs]
+        for u, m, f in futs:
+            r = f.result()
+            r['unit'] = u
+            out.append(r)
+    return out
